@@ -65,11 +65,13 @@ func stripLeanComments(s string) string {
 }
 
 // schemaObligations is called after the SMT obligations were solved (it needs to know which axioms were used).
-func (s *Session) schemaObligations(prop string) ([]*Obligation, []string) {
+func (s *Session) schemaObligations(prop string, propObs []*Obligation) ([]*Obligation, []string) {
 	used := map[string]bool{}
 	s.solver.usedMu.Lock()
-	for k := range s.solver.used {
-		used[k] = true
+	for _, ob := range propObs {
+		for k := range ob.Axioms {
+			used[k] = true
+		}
 	}
 	s.solver.usedMu.Unlock()
 	var m schemaMap
